@@ -126,6 +126,8 @@ pub enum Op
     DespawnRecursive(EntId),
     /// Despawn an actor's system entity.
     DespawnSys(ActorId),
+    /// `clear()` an actor's system entity: the entity stays, its system (the storage component) is gone.
+    StripSys(ActorId),
     /// Add triggers to an existing actor.
     Register(ActorId, Bundle, Mode),
     /// Spawn a new actor and register it (`on` / `on_persistent` / `on_revokable` shape).
@@ -154,7 +156,7 @@ impl Op
     {
         match *self
         {
-            Op::Run(a) | Op::SysEvent(a) | Op::DespawnSys(a) | Op::Register(a, _, _) => Some(a),
+            Op::Run(a) | Op::SysEvent(a) | Op::DespawnSys(a) | Op::StripSys(a) | Op::Register(a, _, _) => Some(a),
             _ => None,
         }
     }
